@@ -24,12 +24,12 @@ impl NodeId {
 
     /// Parses a byte slice to form a node Id. This fails if the slice isn't of length 32.
     pub fn parse(raw_input: &[u8]) -> Result<Self, &'static str> {
-        if raw_input.len() > 32 {
-            return Err("Input too large");
+        if raw_input.len() != 32 {
+            return Err("Input must be exactly 32 bytes");
         }
 
         let mut raw: RawNodeId = [0_u8; 32];
-        raw[..std::cmp::min(32, raw_input.len())].copy_from_slice(raw_input);
+        raw.copy_from_slice(raw_input);
 
         Ok(Self { raw })
     }
